@@ -56,6 +56,15 @@ def judge_cell(case, col, enumerated=False, record=True):
     back = ser.serialize(d)
     if back != cid:
         raise Violation("reencode_mismatch", case, observed=hex(back), expected=hex(cid))
+    if case.get("scribble", True):
+        # a caller editing the decoded cell must not change what the id decodes to afterwards
+        d["S"] = d["S"] + 1
+        d["segment"] = (d["segment"] + 1) % 5
+        d["resolution"] = max(0, res - 1)
+        d2 = ser.deserialize(cid)
+        got2 = (d2["resolution"], d2["origin"].id, d2["segment"] if res >= 1 else 0, d2["S"])
+        if got2 != want or a5.get_resolution(cid) != res:
+            raise Violation("decode_depends_on_caller_mutation", case, observed=got2, expected=want)
     if record:
         col.case(case, nontrivial=(res >= 2 and S != 0), classes=(f"cell_res{res:02d}",), enumerated=enumerated)
     return cid
@@ -153,7 +162,7 @@ def stage_enum(ctx):
                 continue
             seg = refids.q_to_seg(f, q)
             for S in range(4 ** (res - 1) if res >= 2 else 1):
-                case = {"t": "cell", "res": res, "face": f, "seg": seg, "S": S}
+                case = {"t": "cell", "res": res, "face": f, "seg": seg, "S": S, "scribble": S % 16 == 5 or res < 4}
                 cid = judge_cell(case, col, record=False)
                 seen.add(cid)
                 n += 1
